@@ -8,7 +8,7 @@ the caller re-runs the interpreter concretely on the model's input values).
 """
 import time
 import z3
-from poly import Poly, mono_interval
+from poly import Poly, DP, mono_interval
 
 
 class Problem:
@@ -87,6 +87,7 @@ class Problem:
         return str(r), model
 
     def prove_range(self, p, lo, hi):
+        p = DP.lift(p).c      # compact form: remainders are atoms with their own bounds (linked to the expanded form by the definitions)
         if p.is_const():
             self.queries += 1
             return ("unsat", None) if lo <= p.cval() <= hi else ("sat", {})
@@ -94,14 +95,26 @@ class Problem:
         return self._check(z3.Or(e < lo, e > hi))
 
     def prove_congruent(self, p, modulus):
-        """p == 0 (mod modulus)"""
-        # reduce coefficients first (sound: changes p by a multiple of the modulus)
-        red = Poly({m: c % modulus for m, c in p.t.items() if c % modulus != 0})
+        """p == 0 (mod modulus). Encoding: coefficients are first reduced to symmetric residues (changes p by a multiple of the
+        modulus); if the reduced polynomial provably lies strictly between -modulus and modulus the query is `!= 0`, else `mod != 0`."""
+        p = DP.lift(p).e      # expanded form: canonical, carries cancel syntactically
+        red = {}
+        for m, c in p.t.items():
+            r = c % modulus
+            if r > modulus // 2:
+                r -= modulus
+            if r:
+                red[m] = r
+        red = Poly(red)
         e = self.lin(red)
+        lo, hi = red.interval(self.tab)
+        if -modulus < lo and hi < modulus:
+            return self._check(e != 0)
         return self._check(e % modulus != 0)
 
     def prove_equal(self, p):
         """p == 0"""
+        p = DP.lift(p).e
         if not p.t:
             self.queries += 1
             return "unsat", None
